@@ -356,29 +356,16 @@ def _short(t, n=160):
 
 
 def _solve(assertions):
-    """fresh non-incremental solver; on unknown retry via SMT-LIB2 on z3 4.8.12 binary and cvc5"""
+    """fresh non-incremental solver.  Order: z3 (5 s) -> uninterpreted abstraction of normalised nonlinear monomials
+    (LRA; sound for refutation) -> z3 default and QF_NRA (full timeout) -> SMT-LIB2 dump on /usr/bin/z3 4.8.12 and cvc5"""
     s = z3.Solver()
-    s.set("timeout", SOLVER_TIMEOUT_MS)
+    s.set("timeout", min(5000, SOLVER_TIMEOUT_MS))
     s.add(*assertions)
     r = s.check()
     if r == z3.unsat:
         return "unsat", None
     if r == z3.sat:
         return "sat", s.model()
-    # retry: other tactic, then external solvers
-    try:
-        s2 = z3.SolverFor("QF_NRA")
-        s2.set("timeout", SOLVER_TIMEOUT_MS)
-        s2.add(*assertions)
-        r2 = s2.check()
-        if r2 == z3.unsat:
-            return "unsat", None
-        if r2 == z3.sat:
-            return "sat", s2.model()
-    except z3.Z3Exception:
-        pass
-    # sound for refutation: replace every nonlinear product / quotient by a fresh real (uninterpreted
-    # abstraction only drops constraints, so unsat of the abstraction implies unsat of the original)
     try:
         s4 = z3.SolverFor("QF_LRA")
         s4.set("timeout", SOLVER_TIMEOUT_MS)
@@ -388,15 +375,52 @@ def _solve(assertions):
             return "unsat", None
     except z3.Z3Exception:
         pass
+    for mk in (z3.Solver, lambda: z3.SolverFor("QF_NRA")):
+        try:
+            s2 = mk()
+            s2.set("timeout", SOLVER_TIMEOUT_MS)
+            s2.add(*assertions)
+            r2 = s2.check()
+            if r2 == z3.unsat:
+                return "unsat", None
+            if r2 == z3.sat:
+                return "sat", s2.model()
+        except z3.Z3Exception:
+            pass
     r3 = external_solve(s.to_smt2())
     if r3 == "unsat":
         return "unsat", None
     return "unknown", None
 
 
+def _factors(t, cache, fresh):
+    """(numeric coefficient as z3 numeral list, list of abstracted non-numeric factors) of a product / quotient tree"""
+    k = t.decl().kind()
+    if k == z3.Z3_OP_MUL:
+        nums, facs = [], []
+        for c in t.children():
+            n, f = _factors(c, cache, fresh)
+            nums += n
+            facs += f
+        return nums, facs
+    if k == z3.Z3_OP_DIV:
+        a, b = t.children()
+        n, f = _factors(a, cache, fresh)
+        if z3.is_rational_value(b) or z3.is_int_value(b):
+            return n + [1 / z3.RealVal(1) * (z3.RealVal(1) / b)], f
+        nb = abstract_nonlinear(b, cache, fresh)
+        return n, f + [("inv", nb)]
+    if k == z3.Z3_OP_UMINUS:
+        n, f = _factors(t.children()[0], cache, fresh)
+        return n + [z3.RealVal(-1)], f
+    if z3.is_rational_value(t) or z3.is_int_value(t):
+        return [t], []
+    return [], [("fac", abstract_nonlinear(t, cache, fresh))]
+
+
 def abstract_nonlinear(t, cache, fresh):
-    """copy of term t in which each maximal nonlinear monomial / quotient is a fresh Real constant
-    (identical subterms get the same constant)"""
+    """copy of term t in which each maximal nonlinear monomial / quotient is a fresh Real constant; monomials are
+    normalised (flattened, factors sorted), so a*b*c and c*(b*a) get the same constant"""
     key = t.get_id()
     if key in cache:
         return cache[key]
@@ -404,20 +428,24 @@ def abstract_nonlinear(t, cache, fresh):
     if not ch:
         cache[key] = t
         return t
-    nch = [abstract_nonlinear(c, cache, fresh) for c in ch]
     k = t.decl().kind()
-    nonlin = False
-    if k == z3.Z3_OP_MUL:
-        nonlin = sum(0 if z3.is_rational_value(c) or z3.is_int_value(c) else 1 for c in nch) >= 2
-    elif k == z3.Z3_OP_DIV:
-        nonlin = not (z3.is_rational_value(nch[1]) or z3.is_int_value(nch[1]))
-    if nonlin:
-        r0 = t.decl()(*nch)
-        sk = str(z3.simplify(r0)) if len(str(r0)) < 4000 else r0.sexpr()
-        if sk not in fresh:
-            fresh[sk] = z3.Real("__nl%d" % len(fresh))
-        r = fresh[sk]
+    if k in (z3.Z3_OP_MUL, z3.Z3_OP_DIV):
+        nums, facs = _factors(t, cache, fresh)
+        coeff = None
+        for n in nums:
+            coeff = n if coeff is None else coeff * n
+        if len(facs) == 0:
+            r = coeff if coeff is not None else z3.RealVal(1)
+        elif len(facs) == 1 and facs[0][0] == "fac":
+            r = facs[0][1] if coeff is None else coeff * facs[0][1]
+        else:
+            sk = tuple(sorted("%s:%s" % (kind, f.sexpr() if len(f.sexpr()) < 2000 else f.get_id()) for kind, f in facs))
+            if sk not in fresh:
+                fresh[sk] = z3.Real("__nl%d" % len(fresh))
+            r = fresh[sk] if coeff is None else coeff * fresh[sk]
+        r = z3.simplify(r) if coeff is not None else r
     else:
+        nch = [abstract_nonlinear(c, cache, fresh) for c in ch]
         r = t.decl()(*nch)
     cache[key] = r
     return r
@@ -478,6 +506,7 @@ def run_float(mod, cfg, env=None, seed=0, tries=1, purpose="consistency"):
 def run_sym(mod, cfg, max_paths, budget_s):
     """explore all paths of the case in symbolic mode; returns (stats, [World per path])"""
     worlds = []
+    KEEP = 400  # paths whose full World (records, terms) is retained for the consistency check; the rest is summarised
 
     def one(ctx):
         W = World("sym", ctx=ctx)
@@ -493,6 +522,12 @@ def run_sym(mod, cfg, max_paths, budget_s):
         except Exception as e:  # noqa
             W.fail("uncaught:%s" % type(e).__name__, "%s: %s | %s" % (type(e).__name__, str(e)[:300], _tb_tail()))
         W.pc = list(ctx.pc) + list(ctx.assumptions)
+        if len(worlds) > KEEP:
+            # summarise: drop the heavy parts (term arrays), keep counters and failures
+            W.records = []
+            W.pc = None
+            W.ctx = None
+            W.samples = W.samples[:1]
         return None
 
     npshim.install()
@@ -516,6 +551,9 @@ def work_case(args):
                solver_s=0.0, solver_calls=0, pc_checks=0, violations=[], errors=[], consistency=0,
                samples=[], labels={}, wall=0.0, nonvacuous_paths=0)
     t0 = time.time()
+    trace = os.environ.get("VERIF_TRACE")
+    if trace:
+        print("START %d %s" % (os.getpid(), json.dumps(cfg, default=str)[:200]), file=sys.stderr, flush=True)
     try:
         st, worlds = run_sym(mod, cfg, max_paths, budget_s)
     except sxc.Concretised as e:
@@ -596,6 +634,8 @@ def work_case(args):
         except (KeyError, NotImplementedError) as e:
             out["errors"].append("consistency run failed: %r" % e)
     out["wall"] = time.time() - t0
+    if trace:
+        print("END %d %.1fs paths=%d" % (os.getpid(), out["wall"], out["paths"]), file=sys.stderr, flush=True)
     return out
 
 
@@ -603,8 +643,10 @@ def _select_path(worlds, env):
     if len(worlds) == 1:
         return worlds[0]
     for W in worlds:
+        if getattr(W, "pc", None) is None:
+            continue
         try:
-            if all(sxc.eval_float(c, env) for c in getattr(W, "pc", [])):
+            if all(sxc.eval_float(c, env) for c in W.pc):
                 return W
         except KeyError:
             continue
@@ -711,15 +753,44 @@ def main(mod, argv=None):
         jobs.append((mod.__name__, cfg, seed, (h + seed) % cons_every == 0, max_paths, budget_s))
     results = []
     if a.jobs > 1 and len(jobs) > 1:
-        ctx = mp.get_context("fork")
-        with ctx.Pool(min(a.jobs, len(jobs))) as pool:
-            chunk = max(1, min(16, len(jobs) // (a.jobs * 8)))
-            for r in pool.imap_unordered(work_case, jobs, chunksize=chunk):
-                results.append(r)
+        results = run_pool(jobs, min(a.jobs, len(jobs)))
     else:
         for j in jobs:
             results.append(work_case(j))
     return finish(mod, tier, seed, results, time.time() - t0, shim_checks, pre_info, len(cases))
+
+
+def run_pool(jobs, nproc):
+    """process pool that survives the death of a worker (OOM kill, solver crash): the pool is rebuilt and the
+    unfinished cases are retried; a case that kills its worker twice is reported as a harness error"""
+    from concurrent.futures import ProcessPoolExecutor, as_completed
+    from concurrent.futures.process import BrokenProcessPool
+    ctx = mp.get_context("fork")
+    results, pending, strikes = [], list(range(len(jobs))), {}
+    while pending:
+        done_now = set()
+        try:
+            with ProcessPoolExecutor(max_workers=nproc, mp_context=ctx) as ex:
+                futs = {ex.submit(work_case, jobs[i]): i for i in pending}
+                for f in as_completed(futs):
+                    i = futs[f]
+                    results.append(f.result())
+                    done_now.add(i)
+        except BrokenProcessPool:
+            pass
+        left = [i for i in pending if i not in done_now]
+        if len(left) == len(pending) or (left and len(left) <= nproc):
+            for i in left:
+                strikes[i] = strikes.get(i, 0) + 1
+        dead = [i for i in left if strikes.get(i, 0) >= 2]
+        for i in dead:
+            results.append(dict(cfg=jobs[i][1], paths=0, forks=0, oblig=0, discharged=0, syntactic=0, struct=0, inconclusive=0, solver_s=0.0,
+                                solver_calls=0, pc_checks=0, violations=[], errors=["worker process died while running this case (twice)"], consistency=0,
+                                samples=[], labels={}, wall=0.0, nonvacuous_paths=0))
+        pending = [i for i in left if i not in dead]
+        if pending and len(pending) <= nproc:
+            nproc = max(1, nproc // 2)  # the suspects run with fewer neighbours
+    return results
 
 
 def finish(mod, tier, seed, results, wall, shim_checks, pre_info, ncases):
